@@ -1,7 +1,9 @@
 /- C13 — trajectories keep every frame, in order, each identical to a single load.
 
    Theorems are about the executable model `Model/Traj.lean` (the definitions the driver runs in the `traj`,
-   `trajc`, `dumpm` and `fchkm` streams).  Per-line field parsing is a parameter: `pa`/`pb` parse an atom / bond
+   `trajc`, `dumpm` and `fchkm` streams).  For each of the six text formats: prefix-consumption law, round trip for
+   every non-empty frame list, malformed-reached, truncated-last at every cut point (XYZ, SDF, PDB, MOL2 against
+   the library's writer; GRO and extended XYZ against the harness's renderer `groRender` / `extRender`).  Per-line field parsing is a parameter: `pa`/`pb` parse an atom / bond
    record, `fa`/`fb` print one, with the round-trip hypothesis `pa (fa a) = some a`; the count lines are printed by
    `showNat` / `fc` with the stated parse hypotheses.  -/
 import Iodata.Lemmas.Traj
@@ -277,11 +279,6 @@ section sdf
 variable {α β : Type} (fc : Nat → Nat → Line) (pa : Line → Option α) (fa : α → Line)
   (pb : Line → Option β) (fb : β → Line)
 
-/-- the counts line is printed so that the reader's column cuts recover both numbers and the V2000 tag -/
-def SdfCountsOk (fc : Nat → Nat → Line) : Prop :=
-  ∀ na nb, pyInt ((fc na nb).take 3) = some (na : Int) ∧ pyInt (((fc na nb).drop 3).take 3) = some (nb : Int) ∧
-    lastWordUpper (fc na nb) = some ['V', '2', '0', '0', '0'] ∧ isBlank (fc na nb) = false
-
 /-- **prefix-consumption law** for SDF: title by position (a title `$$$$` or `M  END` is inside the domain), two
     comment lines, counts, atom and bond blocks, then the search for `$$$$` stops at the record's own terminator. -/
 theorem sdf_prefix_law (hc : SdfCountsOk fc) (ha : ∀ a, pa (fa a) = some a) (hb : ∀ b, pb (fb b) = some b)
@@ -331,8 +328,8 @@ theorem sdf_roundtrip (hc : SdfCountsOk fc) (ha : ∀ a, pa (fa a) = some a) (hb
 /-- **malformed_reached / truncated_last** for SDF: after any number of complete molecules, a block on which
     `load_one` raises (StopIteration because the file ends inside the header, the atom or the bond block; LoadError
     because `$$$$` is missing or the record is not V2000; ValueError for an unreadable count or field) makes the
-    sequence end with LoadError after exactly the complete molecules.  `hbad` is discharged for truncated files by
-    `sdf_cut_header_stops` below and, for every cut point, checked against the real reader by the `trajc` stream. -/
+    sequence end with LoadError after exactly the complete molecules.  `hbad` is discharged for truncated files at every cut point by
+    `sdf_cut_raises` (`sdf_truncated_last` below). -/
 theorem sdf_malformed_reached (hc : SdfCountsOk fc) (ha : ∀ a, pa (fa a) = some a) (hb : ∀ b, pb (fb b) = some b)
     (fs : List (SdfFrame α β)) (hnl : ∀ f ∈ fs, '\n' ∉ f.title)
     (bad : List Line) (hnb : ∃ l ∈ bad, isBlank l = false)
@@ -365,7 +362,137 @@ theorem sdf_cut_header_stops (t : List Line) (ht : 0 < t.length ∧ t.length < 4
   | [a, b], _ => exact ⟨_, by simp [sdfLoadOne]; rfl⟩
   | [a, b, c], _ => exact ⟨_, by simp [sdfLoadOne]; rfl⟩
   | _ :: _ :: _ :: _ :: _, h => simp at h; omega
+
+/-- **truncated_last for SDF, EVERY cut point**: a written file cut after `m` lines of its last record
+    (`0 < m < all`: inside the header, the atom block, the bond block, before `M  END` or before `$$$$`), after any
+    number of complete records: exactly the complete records are yielded, then LoadError.  `hnb`: the cut part holds
+    a non-blank line — always the case from the counts line on (`m ≥ 4`); a cut that leaves only blank lines of the
+    next record (blank title, the two comment lines) is a clean end (`sdf_roundtrip` with `blanks`). -/
+theorem sdf_truncated_last (hc : SdfCountsOk fc) (ha : ∀ a, pa (fa a) = some a) (hb : ∀ b, pb (fb b) = some b)
+    (fs : List (SdfFrame α β)) (hnl : ∀ f ∈ fs, '\n' ∉ f.title) (f : SdfFrame α β) (hf : '\n' ∉ f.title)
+    (m : Nat) (hm0 : 0 < m) (hm : m < (sdfDumpOne fc fa fb f).length)
+    (hnb : ∃ l ∈ (sdfDumpOne fc fa fb f).take m, isBlank l = false) :
+    ∃ ln, loadMany sdfSkel (sdfLoadOne pa pb)
+        (fs.flatMap (sdfDumpOne fc fa fb) ++ (sdfDumpOne fc fa fb f).take m) = ⟨fs.map sdfNorm, .loadError ln⟩ :=
+  sdf_malformed_reached fc pa fa pb fb hc ha hb fs hnl _ hnb
+    (fun ln => sdf_cut_raises fc pa fa pb fb hc ha hb f hf m hm0 hm ln)
+
+/-- from the counts line on the cut part always holds a non-blank line -/
+theorem sdf_cut_nonblank (hc : SdfCountsOk fc) (f : SdfFrame α β) (hf : '\n' ∉ f.title) (m : Nat) (hm : 4 ≤ m) :
+    ∃ l ∈ (sdfDumpOne fc fa fb f).take m, isBlank l = false := by
+  obtain ⟨k, rfl⟩ : ∃ k, m = k + 4 := ⟨m - 4, by omega⟩
+  refine ⟨fc f.atoms.length f.bonds.length, ?_, (hc _ _).2.2.2⟩
+  simp [sdfDumpOne, splitNl_no_nl _ (titleOr_no_nl _ hf)]
 end sdf
+
+/-! ## GRO and extended XYZ (readers only; the library has no writer for them)
+
+   The round trip is stated against the harness's own renderer of well-formed frames (`groRender`, `extRender`):
+   `loadMany (flatMap specRender fs) = ok (map norm fs)`.  The per-line parsers are parameters: `pt` accepts the
+   title line (GRO: the optional `t=` time stamp must parse; extXYZ: `_parse_title`), `pa` an atom line, `pc` the
+   GRO box line. -/
+
+section gro
+variable {α : Type} (showNat : Nat → Line) (pt : Line → Bool) (pa : Line → Option α) (pc : Line → Bool)
+  (fa : α → Line) (box : Line)
+
+/-- **prefix-consumption law for GRO**: title (any text that passes `pt`: blank, a number, with commas — it is
+    taken by position), count, atom lines, box line -/
+theorem gro_prefix_law (hs : ∀ n, pyInt (showNat n) = some (n : Int)) (ha : ∀ a, pa (fa a) = some a)
+    (hbox : pc box = true) (f : XyzFrame α) (hpt : pt f.title = true) (rest : List Line) (ln : Int) :
+    ∃ ln', groLoadOne pt pa pc ⟨groRender showNat fa box f ++ rest, ln⟩ = .ok (groNorm f) ⟨rest, ln'⟩ :=
+  gro_loadOne_render showNat pt pa pc fa box hs ha hbox f hpt rest ln
+
+/-- **round trip, any number of frames**, trailing blank lines ignored -/
+theorem gro_roundtrip (hs : ∀ n, pyInt (showNat n) = some (n : Int)) (hb : ∀ n, isBlank (showNat n) = false)
+    (ha : ∀ a, pa (fa a) = some a) (hbox : pc box = true) (fs : List (XyzFrame α)) (hne : fs ≠ [])
+    (hpt : ∀ f ∈ fs, pt f.title = true) (blanks : List Line) (hbl : ∀ l ∈ blanks, isBlank l = true) :
+    loadMany groSkel (groLoadOne pt pa pc) (fs.flatMap (groRender showNat fa box) ++ blanks) =
+      ⟨fs.map groNorm, .done⟩ :=
+  loadMany_blocks_then_end .peekPushAll (groLoadOne pt pa pc) (groRender showNat fa box) groNorm
+    (fun f => pt f.title = true) (gro_render_ne showNat fa box)
+    (fun f hf rest ln first => gro_step showNat pt pa pc fa box hs hb ha hbox f hf rest ln first)
+    fs hne hpt blanks (fun ln => by simp [runPeek, collectGo_none blanks [] ln hbl])
+
+/-- **malformed_reached**: complete frames, then lines (not all blank) on which `load_one` raises — a bad count, an
+    unparsable atom or box line, a bad time stamp, the end of the file: the complete frames, then LoadError -/
+theorem gro_malformed_reached (hs : ∀ n, pyInt (showNat n) = some (n : Int)) (hb : ∀ n, isBlank (showNat n) = false)
+    (ha : ∀ a, pa (fa a) = some a) (hbox : pc box = true) (fs : List (XyzFrame α))
+    (hpt : ∀ f ∈ fs, pt f.title = true) (bad : List Line) (hnb : ∃ l ∈ bad, isBlank l = false)
+    (hbad : ∀ ln, ∃ e s, groLoadOne pt pa pc ⟨bad, ln⟩ = .raise e s) :
+    ∃ ln, loadMany groSkel (groLoadOne pt pa pc) (fs.flatMap (groRender showNat fa box) ++ bad) =
+      ⟨fs.map groNorm, .loadError ln⟩ :=
+  loadMany_blocks_then_bad .peekPushAll (groLoadOne pt pa pc) (groRender showNat fa box) groNorm
+    (fun f => pt f.title = true) (gro_render_ne showNat fa box)
+    (fun f hf rest ln first => gro_step showNat pt pa pc fa box hs hb ha hbox f hf rest ln first)
+    fs hpt bad (fun ln first => peekPushAll_go ⟨bad, ln⟩ first hnb) hbad
+
+/-- **truncated_last, every cut point** (`hnb`: the cut part is not only a blank title line) -/
+theorem gro_truncated_last (hs : ∀ n, pyInt (showNat n) = some (n : Int)) (hb : ∀ n, isBlank (showNat n) = false)
+    (ha : ∀ a, pa (fa a) = some a) (hbox : pc box = true) (fs : List (XyzFrame α))
+    (hpt : ∀ f ∈ fs, pt f.title = true) (f : XyzFrame α) (hf : pt f.title = true) (m : Nat) (hm0 : 0 < m)
+    (hm : m < (groRender showNat fa box f).length)
+    (hnb : ∃ l ∈ (groRender showNat fa box f).take m, isBlank l = false) :
+    ∃ ln, loadMany groSkel (groLoadOne pt pa pc)
+        (fs.flatMap (groRender showNat fa box) ++ (groRender showNat fa box f).take m) =
+      ⟨fs.map groNorm, .loadError ln⟩ :=
+  gro_malformed_reached showNat pt pa pc fa box hs hb ha hbox fs hpt _ hnb (fun ln => by
+    obtain ⟨s, h⟩ := gro_cut_stops showNat pt pa pc fa box hs ha f hf m hm0 hm ln
+    exact ⟨_, _, h⟩)
+
+/-- from the count line on the cut part holds a non-blank line -/
+theorem gro_cut_nonblank (hb : ∀ n, isBlank (showNat n) = false) (f : XyzFrame α) (m : Nat) (hm : 2 ≤ m) :
+    ∃ l ∈ (groRender showNat fa box f).take m, isBlank l = false := by
+  obtain ⟨k, rfl⟩ : ∃ k, m = k + 2 := ⟨m - 2, by omega⟩
+  exact ⟨showNat f.atoms.length, by simp [groRender], hb _⟩
+end gro
+
+section ext
+variable {α : Type} (showNat : Nat → Line) (pt : Line → Bool) (pa : Line → Option α) (fa : α → Line)
+
+/-- **prefix-consumption law for extended XYZ**: `load_one` reads the count and the title line, parses the title,
+    pushes both back and lets the XYZ reader consume the frame -/
+theorem extxyz_prefix_law (hs : ∀ n, pyInt (showNat n) = some (n : Int)) (ha : ∀ a, pa (fa a) = some a)
+    (f : XyzFrame α) (hpt : pt f.title = true) (rest : List Line) (ln : Int) :
+    ∃ ln', extLoadOne pt pa ⟨extRender showNat fa f ++ rest, ln⟩ = .ok (extNorm f) ⟨rest, ln'⟩ :=
+  ext_loadOne_render showNat pt pa fa hs ha f hpt rest ln
+
+theorem extxyz_roundtrip (hs : ∀ n, pyInt (showNat n) = some (n : Int)) (hb : ∀ n, isBlank (showNat n) = false)
+    (ha : ∀ a, pa (fa a) = some a) (fs : List (XyzFrame α)) (hne : fs ≠ [])
+    (hpt : ∀ f ∈ fs, pt f.title = true) (blanks : List Line) (hbl : ∀ l ∈ blanks, isBlank l = true) :
+    loadMany xyzSkel (extLoadOne pt pa) (fs.flatMap (extRender showNat fa) ++ blanks) = ⟨fs.map extNorm, .done⟩ :=
+  loadMany_blocks_then_end .skipBlank (extLoadOne pt pa) (extRender showNat fa) extNorm
+    (fun f => pt f.title = true) (ext_render_ne showNat fa)
+    (fun f hf rest ln first => ext_step showNat pt pa fa hs hb ha f hf rest ln first)
+    fs hne hpt blanks (fun ln => by simp [runPeek, skipBlank_eof blanks ln hbl])
+
+theorem extxyz_malformed_reached (hs : ∀ n, pyInt (showNat n) = some (n : Int))
+    (hb : ∀ n, isBlank (showNat n) = false) (ha : ∀ a, pa (fa a) = some a) (fs : List (XyzFrame α))
+    (hpt : ∀ f ∈ fs, pt f.title = true) (l : Line) (t : List Line) (hl : isBlank l = false)
+    (hbad : ∀ ln, ∃ e s, extLoadOne pt pa ⟨l :: t, ln⟩ = .raise e s) :
+    ∃ ln, loadMany xyzSkel (extLoadOne pt pa) (fs.flatMap (extRender showNat fa) ++ l :: t) =
+      ⟨fs.map extNorm, .loadError ln⟩ :=
+  loadMany_blocks_then_bad .skipBlank (extLoadOne pt pa) (extRender showNat fa) extNorm
+    (fun f => pt f.title = true) (ext_render_ne showNat fa)
+    (fun f hf rest ln first => ext_step showNat pt pa fa hs hb ha f hf rest ln first)
+    fs hpt (l :: t) (fun ln first => skipBlank_go l t ln first hl) hbad
+
+/-- **truncated_last, every cut point** -/
+theorem extxyz_truncated_last (hs : ∀ n, pyInt (showNat n) = some (n : Int))
+    (hb : ∀ n, isBlank (showNat n) = false) (ha : ∀ a, pa (fa a) = some a) (fs : List (XyzFrame α))
+    (hpt : ∀ f ∈ fs, pt f.title = true) (f : XyzFrame α) (hf : pt f.title = true) (m : Nat) (hm0 : 0 < m)
+    (hm : m < (extRender showNat fa f).length) :
+    ∃ ln, loadMany xyzSkel (extLoadOne pt pa)
+        (fs.flatMap (extRender showNat fa) ++ (extRender showNat fa f).take m) = ⟨fs.map extNorm, .loadError ln⟩ := by
+  obtain ⟨k, rfl⟩ : ∃ k, m = k + 1 := ⟨m - 1, by omega⟩
+  have hshape : (extRender showNat fa f).take (k + 1) =
+      showNat f.atoms.length :: (f.title :: f.atoms.map fa).take k := by simp [extRender]
+  have hcut := fun ln => ext_cut_stops showNat pt pa fa hs ha f hf (k + 1) hm0 hm ln
+  rw [hshape] at hcut ⊢
+  exact extxyz_malformed_reached showNat pt pa fa hs hb ha fs hpt _ _ (hb _) (fun ln => by
+    obtain ⟨s, h⟩ := hcut ln
+    exact ⟨_, _, h⟩)
+end ext
 
 /-! ## PDB (writer + reader)
 
@@ -886,6 +1013,21 @@ example : pyInt ((sdfCountsLine 999 0).take 3) = some 999 ∧ pyInt (((sdfCounts
   decide
 /-- outside the column capacity the hypothesis `SdfCountsOk` fails (1000 atoms are read back as 100) -/
 example : pyInt ((sdfCountsLine 1000 0).take 3) = some 100 := by decide
+
+/-- instances of the GRO and extended-XYZ statements by evaluation (titles that look like counts or are blank) -/
+example : loadMany groSkel (groLoadOne (fun _ => true) anyLine (fun _ => true))
+    ([(⟨['3'], [['a'], ['b']]⟩ : XyzFrame Line), ⟨[], []⟩, ⟨['w', ',', 't', '=', '1'], [['c']]⟩].flatMap
+      (groRender natDigits id ['9', ' ', '9', ' ', '9']) ++ [[]]) =
+    ⟨[⟨['3'], [['a'], ['b']]⟩, ⟨[], []⟩, ⟨['w'], [['c']]⟩], .done⟩ := by decide
+example : loadMany xyzSkel (extLoadOne (fun _ => true) anyLine)
+    ([(⟨['2'], [['a'], ['b']]⟩ : XyzFrame Line), ⟨[' ', 'x', ' '], []⟩].flatMap (extRender natDigits id)) =
+    ⟨[⟨['2'], [['a'], ['b']]⟩, ⟨['x'], []⟩], .done⟩ := by decide
+/-- a GRO file cut inside its second frame at every cut point -/
+example : (List.range 4).all (fun k =>
+    (loadMany groSkel (groLoadOne (fun _ => true) anyLine (fun _ => true))
+      (groRender natDigits id ['9'] (⟨['A'], [['a']]⟩ : XyzFrame Line) ++
+        (groRender natDigits id ['9'] (⟨['B'], [['b']]⟩ : XyzFrame Line)).take (k + 1) |>.take (4 + k + 1))).final ≠ .done
+      || k == 3) = true := by decide
 
 /-- a complete instance of the XYZ statements with every hypothesis discharged by evaluation -/
 example : loadMany xyzSkel (xyzLoadOne anyLine)
